@@ -70,6 +70,7 @@ class Horn:
         self.queries = 0
         self.solver_s = 0.0
         self.obj_kind = {}      # object id -> 'global' | 'fn' | 'alloca' | 'ext'
+        self.log = {}
         self.site_meta = {}     # site id -> dict
         B = z3.BoolSort()
         V, O, S, I, P, R = self.V, self.O, self.S, self.I, self.P, self.R
@@ -90,6 +91,8 @@ class Horn:
     def id(self, kind, key):
         d = self.ids[kind]
         if key not in d:
+            if len(d) >= (1 << 20 if kind == "V" else 1 << 16) - 1:
+                raise Problem("too many %s identifiers for the finite sort" % kind)
             d[key] = len(d)
             self.names[kind].append(key)
         return d[key]
@@ -98,6 +101,10 @@ class Horn:
         return z3.BitVecVal(n, sort)
 
     def fact(self, name, *args):
+        if name in ("Copy", "PT", "Wr"):        # kept only to print a derivation next to a violation (explain()); verdicts come from z3
+            self.log.setdefault(name, {}).setdefault(args[0], []).append(args[1])
+        if name == "ICallArg":
+            self.log.setdefault("Wr", {}).setdefault(args[0], []).append(args[2])
         r = self.rel[name]
         self.fp.fact(r(*[self._c(r.domain(i), a) for i, a in enumerate(args)]))
         self.nfacts += 1
@@ -180,6 +187,26 @@ class Horn:
             res[self.OUT[k]].append((a, b) if self.rel[self.OUT[k]].arity() == 2 else (a,))
         return res
 
+    def explain(self, site, obj, limit=12):
+        """a copy chain (call arguments, GEPs, casts, phis) from an operand that names the object to the written address, if one exists
+        without going through memory; purely informative"""
+        todo = list(self.log.get("Wr", {}).get(site, []))
+        prev = {v: None for v in todo}
+        while todo:
+            v = todo.pop(0)
+            if obj in self.log.get("PT", {}).get(v, []):
+                chain = []
+                while v is not None:
+                    key = self.names["V"][v]
+                    chain.append("%s:%s" % (key[1], key[2]) if key[0] not in ("const", "noaddr") else "@" + ",@".join(key[2]) if key[0] == "const" else "?")
+                    v = prev[v]
+                return " -> ".join(chain[:limit])
+            for w in self.log.get("Copy", {}).get(v, []):
+                if w not in prev:
+                    prev[w] = v
+                    todo.append(w)
+        return None
+
     def query(self, name, limit=400):
         """all tuples of relation `name` (the fixed point is computed by z3; the answer formula is enumerated with a solver)"""
         import time
@@ -223,6 +250,7 @@ class IRFacts:
         self.nfunctions = 0
         self.ninstr = 0
         self.nsites = 0
+        self._const_done = set()
         for m in modules:
             for f in m.functions.values():
                 if not f.is_decl:
@@ -258,8 +286,6 @@ class IRFacts:
         if not refs:
             return None
         vid = self.h.id("V", ("const", self.tu(m), tuple(sorted(refs))))
-        if not hasattr(self, "_const_done"):
-            self._const_done = set()
         if vid not in self._const_done:
             self._const_done.add(vid)
             for g in refs:
@@ -269,9 +295,14 @@ class IRFacts:
     def site(self, m, fn, ins, kind):
         n = self.h.id("S", (self.tu(m), fn.name, len(self.h.names["S"])))
         self.h.site_meta[n] = {"tu": self.tu(m), "function": fn.name, "kind": kind, "instruction": ins.text[:240],
-                               "init": bool(INIT_FN.match(fn.name))}
+                               "init": self.is_init(fn)}
         self.nsites += 1
         return n
+
+    @staticmethod
+    def is_init(fn):
+        """compiler-generated static-initialiser function (reserved name AND internal linkage)"""
+        return bool(INIT_FN.match(fn.name)) and "internal" in fn.linkage.split()
 
     def copy(self, m, fn, dst, src):
         s = self.val(m, fn, src)
@@ -371,7 +402,7 @@ class IRFacts:
             if name.startswith("llvm."):
                 self.unknown_intrinsics.add(name)
                 return
-            if INIT_FN.match(name) and not INIT_FN.match(f.name):
+            if INIT_FN.match(name) and not self.is_init(f):
                 self.init_called_from.append((f.name, name))
             targets = [(tu, d) for (tu, d) in self.defs.get(name, []) if tu == self.tu(m)]
             targets += [(tu, d) for (tu, d) in self.defs.get(name, []) if tu != self.tu(m) and "internal" not in d.linkage.split()
@@ -434,9 +465,9 @@ class AsmFacts:
         self.problems = []        # unmodelled instructions -> inconclusive
         self.violations = []      # (kind, text)
         self.routines = {}        # global text symbol -> pc id
+        self.relocs = []
         self.mem_ops = 0
         self.mem_writes = 0
-        self.sections = {}
 
     def parse(self):
         import os
@@ -454,8 +485,8 @@ class AsmFacts:
             for line in out.split("\n"):
                 mm = re.match(r"^\s*([0-9a-f]+):\s+(R_\S+)\s+(\S+)", line)
                 if mm:
-                    self.violations.append(("relocation", "%s: relocation %s against %s in assembly text (reference to a symbol outside the routine)"
-                                            % (os.path.basename(o), mm.group(2), mm.group(3))))
+                    self.relocs.append("%s: relocation %s against %s in assembly text (reference to a symbol outside the routine)"
+                                       % (os.path.basename(o), mm.group(2), mm.group(3)))
                     continue
                 mm = re.match(r"^\s*([0-9a-f]+):\s+(\S+)\s*(.*)$", line)
                 if mm and not line.startswith("Disassembly"):
@@ -470,6 +501,8 @@ class AsmFacts:
                     raise Problem("symbol %s does not start an instruction" % name)
                 self.routines[name] = addr2pc[addr]
             self._flow(local, addr2pc)
+        # a reference to static data that is only READ is not a write-freedom violation, but its provenance is not modelled here
+        self.problems += self.relocs
         return self
 
     def _flow(self, local, addr2pc):
@@ -521,7 +554,7 @@ class AsmFacts:
             if write:
                 self.violations.append(("rip-write", "write to rip-relative (static) data: " + text))
             else:
-                self.violations.append(("rip-read", "read of rip-relative (static) data, provenance not modelled: " + text))
+                self.problems.append("read of rip-relative (static) data, not modelled: " + text)
             return True
         if index is not None:
             self.problems.append("indexed addressing not modelled: " + text)
@@ -558,6 +591,8 @@ class AsmFacts:
                 self._mem(pc, dst, True, text)
             else:
                 s, sfull = self._reg(src)
+                if d == "rsp":
+                    self.problems.append("stack pointer overwritten: " + text)
                 if s is not None and sfull and dfull:
                     if s != d:
                         h.fact("Kill", pc, REGS64.index(d))
@@ -577,6 +612,8 @@ class AsmFacts:
             if d is None:
                 self._mem(pc, dst, True, text)
                 return
+            if d == "rsp" and not src.startswith("$"):
+                self.problems.append("stack pointer computed from a register or memory: " + text)
             if s is not None:
                 if s == d and base in ("xor", "sub", "sbb"):
                     self._def(pc, d, True, text)
@@ -608,6 +645,8 @@ class AsmFacts:
             if d is None:
                 self._mem(pc, ops[0], True, text)
             else:
+                if d == "rsp":
+                    self.problems.append("stack pointer popped: " + text)
                 h.fact("Gen", pc, REGS64.index(d))
                 h.fact("Kill", pc, REGS64.index(d))
         elif base.startswith("set") and len(ops) == 1:
